@@ -59,4 +59,71 @@ example :
         [(false, false), (false, false)] 0 0 0 0 = 0 := by
   decide
 
+/-! ## `RrdpServer::deltas_truncate_size` and `RrdpServer::update_rrdp_needed` -/
+
+/-- The loop of `deltas_truncate_size`: for every carried total and count. -/
+theorem size_loop_eq {Δ : Type} (size_of : Δ → Nat) (limit : Nat) (all : List Δ) (l : List Δ) :
+    ∀ (d0 : List Δ) (total keep : Nat),
+    KM.Gen.C11.RrdpServer.deltas_truncate_size.loop size_of limit d0 all total keep l =
+      all.take (keep + (l.foldr (fun d (k : Nat → Nat) => fun t => if t + size_of d > limit then 0 else 1 + k (t + size_of d))
+                          (fun _ => 0)) total) := by
+  induction l with
+  | nil =>
+      intro d0 total keep
+      simp [KM.Gen.C11.RrdpServer.deltas_truncate_size.loop, KM.Gen.C11.RrdpServer.deltas_truncate_size.after]
+  | cons d tl ih =>
+      intro d0 total keep
+      simp only [KM.Gen.C11.RrdpServer.deltas_truncate_size.loop, List.foldr_cons]
+      by_cases h : total + size_of d > limit
+      · simp [h, KM.Gen.C11.RrdpServer.deltas_truncate_size.after]
+      · simp only [h, if_false, ih]
+        congr 1
+        omega
+
+theorem keepBySize_eq_foldr (limit : Nat) (l : List DeltaRec) :
+    ∀ total, keepBySize limit total l =
+      (l.foldr (fun d (k : Nat → Nat) => fun t => if t + d.size > limit then 0 else 1 + k (t + d.size)) (fun _ => 0)) total := by
+  induction l with
+  | nil => intro total; simp [keepBySize]
+  | cons d tl ih => intro total; simp [keepBySize, ih]
+
+/-- `deltas_truncate_size`: generated definition = the model's `take (keepBySize …)` – the newest deltas
+whose summed size does not exceed the size of the snapshot are kept (`deltas_le_max_partial`,
+`client_catches_up` use `keepBySize` through `Rrdp.applyUpdated`). -/
+theorem gen_deltas_truncate_size_eq_model (limit : Nat) (deltas : List DeltaRec) :
+    KM.Gen.C11.RrdpServer.deltas_truncate_size DeltaRec.size limit deltas =
+      deltas.take (keepBySize limit 0 deltas) := by
+  unfold KM.Gen.C11.RrdpServer.deltas_truncate_size
+  simp only [size_loop_eq, keepBySize_eq_foldr, Nat.zero_add]
+
+/-- `update_rrdp_needed` is characterised outright: an update is due NOW exactly when something is staged
+and the minimal interval since the last update has passed; it is postponed to exactly `last_update +
+interval` when something is staged and the interval has not passed; nothing staged: no update.  So a
+staged change is never answered with `No` (the task that would publish it is re-scheduled, never dropped),
+and with an interval of zero (what `Rrdp.hasStaged` models) staged content is always due. -/
+theorem gen_update_rrdp_needed_iff (has_staged : Bool) (last_update interval now : Int) :
+    (KM.Gen.C11.RrdpServer.update_rrdp_needed has_staged last_update interval now = .Yes ↔
+        has_staged = true ∧ last_update + interval ≤ now) ∧
+    (∀ t, KM.Gen.C11.RrdpServer.update_rrdp_needed has_staged last_update interval now = .Later t ↔
+        has_staged = true ∧ now < last_update + interval ∧ t = last_update + interval) ∧
+    (KM.Gen.C11.RrdpServer.update_rrdp_needed has_staged last_update interval now = .No ↔ has_staged = false) := by
+  unfold KM.Gen.C11.RrdpServer.update_rrdp_needed
+  cases has_staged
+  · simp
+  · by_cases h : last_update + interval > now
+    · simp [h]
+      intro t
+      exact eq_comm
+    · simp [h]
+      omega
+
+/-- With no minimal interval (and a clock that does not run backwards past the last update) the generated
+decision is the model's `Rrdp.hasStaged`. -/
+theorem gen_update_rrdp_needed_eq_model (r : Rrdp) (last_update now : Int) (h : last_update ≤ now) :
+    KM.Gen.C11.RrdpServer.update_rrdp_needed r.hasStaged last_update 0 now =
+      if r.hasStaged then .Yes else .No := by
+  unfold KM.Gen.C11.RrdpServer.update_rrdp_needed
+  cases r.hasStaged <;> simp
+  omega
+
 end KM.Props.C11Src
